@@ -1,11 +1,11 @@
 \* C03 quick: pairs of complete versions [epoch:]upstream[-revision]: epoch absent/0/1/01,
-\* revision absent/0/1/~, upstream <= 2 characters over 0 1 a ~ plus ':' and '-' where D2 allows
-\* them (578 versions, 334 084 pairs)
+\* revision absent/0/~, upstream <= 2 characters over 0 1 a ~ plus ':' and '-' where D2 allows
+\* them (422 versions, 178 084 pairs)
 CONSTANTS
   HashOnString = FALSE
   TildeOrderZero = FALSE
   Epochs <- E_few
-  Revs <- R_few
+  Revs <- R_three
   UpChars = {48, 49, 97, 126}
   MaxUp = 2
   Seps = TRUE
